@@ -82,10 +82,11 @@ func (s *socket) RecvMsg() (*protocol.Message, error) {
 	// socket.  Later we can look at moving this to priority queues
 	// based on socket pipes.
 
+	timeQ := nilQ
 	for {
 		s.Lock()
-		timeQ := nilQ
-		if s.recvExpire > 0 {
+		if s.recvExpire > 0 && timeQ == nil {
+			// armed once: a queue resize must not restart the deadline
 			timeQ = time.After(s.recvExpire)
 		}
 		recvQ := s.recvQ
